@@ -198,11 +198,37 @@ func execBfZero(st *State, args []string) string {
 }
 
 func execBfCovers(st *State, args []string) string {
-	r, err := bitfields.Covers(unhex(args[0]), unhex(args[1]))
-	if err != nil {
-		return "err"
+	a, b := unhex(args[0]), unhex(args[1])
+	obs := func(x, y []byte) string {
+		r, err := bitfields.Covers(x, y)
+		if err != nil {
+			return "err"
+		}
+		return "ok " + b01(r)
 	}
-	return "ok " + b01(r)
+	r1 := obs(a, b)
+	// the answer must not depend on where the two arguments live: the same contents as two views
+	// of ONE buffer (prefix views when one is a prefix of the other, adjacent views otherwise)
+	short, long := a, b
+	if len(a) > len(b) {
+		short, long = b, a
+	}
+	var r2 string
+	if len(short) > 0 && string(long[:len(short)]) == string(short) {
+		buf := append([]byte(nil), long...)
+		if len(a) <= len(b) {
+			r2 = obs(buf[:len(a)], buf[:len(b)])
+		} else {
+			r2 = obs(buf[:len(a)], buf[:len(b)])
+		}
+	} else {
+		buf := append(append([]byte(nil), a...), b...)
+		r2 = obs(buf[:len(a):len(a)], buf[len(a):])
+	}
+	if r1 != r2 {
+		return r1 + " shared-buffer:" + strings.ReplaceAll(r2, " ", "")
+	}
+	return r1
 }
 
 // ---- generator ----
@@ -455,6 +481,19 @@ func genC18(g *Gen, tier string, w *bufio.Writer) {
 	for la := 0; la <= 3; la++ {
 		for lb := 0; lb <= 3; lb++ {
 			fmt.Fprintf(w, "bf.covers %s %s\n", hexs(g.Bytes(la)), hexs(make([]byte, lb)))
+		}
+	}
+	// every pair of prefixes of one string (length mismatch must be reported whatever the contents
+	// and wherever the slices live), plus equal strings
+	for i := 0; i < tierN(tier, 60, 2000); i++ {
+		b := g.Bytes(1 + g.Intn(9))
+		if g.Chance(30) {
+			b[len(b)-1] = 0xff
+		}
+		for la := 1; la <= len(b); la++ {
+			for lb := 1; lb <= len(b); lb++ {
+				fmt.Fprintf(w, "bf.covers %s %s\n", hexs(b[:la]), hexs(b[:lb]))
+			}
 		}
 	}
 	// 3-byte sample for the per-string helpers
